@@ -129,8 +129,25 @@ def correlate_cases(rng, n, ctx):
         _, lay = _weight(rng, nrep)
         reps = list(range(nrep))
         a = _obs_on(rng, lay, reps, 'full')
-        bad = str(rng.choice(['none'] * 5 + ['idl', 'names', 'covobs', 'subset']))
-        if bad == 'idl':
+        bad = str(rng.choice(['none'] * 5 + ['idl', 'names', 'covobs', 'subset', 'interior', 'interior']))
+        if bad == 'interior':
+            # same replicas, same number of configurations, same first and last one - but another configuration in between
+            lay2, done = [], False
+            for nm, il in lay:
+                il = list(il)
+                free = [c for c in range(il[0] + 1, il[-1]) if c not in set(il)]
+                if not done and free and len(il) > 2:
+                    k = int(rng.integers(1, len(il) - 1))
+                    il = sorted(set(il[:k] + il[k + 1:]) | {int(rng.choice(free))})
+                    done = True
+                lay2.append((nm, il))
+            if not done:
+                bad = 'idl'
+            else:
+                b = _obs_on(rng, lay2, reps, 'full')
+        if bad == 'interior':
+            pass
+        elif bad == 'idl':
             b = _obs_on(rng, [(nm, [x + 1 for x in il]) for nm, il in lay], reps, 'full')
         elif bad == 'names':
             b = _obs_on(rng, [(nm + 'x', il) for nm, il in lay], reps, 'full')
@@ -162,7 +179,8 @@ def merge_cases(rng, n, ctx):
         obs = [_obs_on(rng, lay, g, 'full') for g in groups]
         bad = str(rng.choice(['none'] * 5 + ['dup', 'covobs', 'two_ens']))
         if bad == 'dup':
-            obs.append(_obs_on(rng, lay, groups[0][:1], 'full'))
+            gsel = groups[int(rng.integers(0, len(groups)))]
+            obs.append(_obs_on(rng, lay, [gsel[int(rng.integers(0, len(gsel)))]], 'full'))      # any replica of any input, once more
         elif bad == 'covobs':
             obs[0] = obs[0] + pe.cov_Obs(0.3, 0.01, 'sysW')
         elif bad == 'two_ens':
@@ -179,6 +197,24 @@ def merge_cases(rng, n, ctx):
     return cases
 
 
+def projection_cases(rng, n, ctx):
+    """qtop_projection: the 0/1 indicator of a topological sector on the charge's own configurations; projecting on one sector
+    leaves the charge as it was, so that the next sector is projected from the same numbers"""
+    cases = []
+    for i in range(n):
+        nrep = int(rng.integers(1, 4))
+        _, lay = _weight(rng, nrep)
+        samples = [rng.integers(-2, 3, size=len(il)).astype(float) + rng.uniform(-0.3, 0.3, size=len(il)) for _, il in lay]
+        q = pe.Obs(samples, [nm for nm, _ in lay], idl=[il for _, il in lay])
+        before = project_obs(q)
+        for step, target in enumerate([int(rng.integers(-1, 2)), int(rng.integers(-2, 3)), 0]):
+            out = _call(lambda: pe.input.openQCD.qtop_projection(q, target))
+            cases.append({'id': 'qp-%04d-%d-t%d' % (i, step, target), 'ev': 'projection', 'q': before, 'target': target, 'res': _res(out)})
+        cases.append({'id': 'qp-%04d-frame' % i, 'ev': 'frame', 'what': 'qtop_projection leaves the charge as it was', 'before': before, 'after': project_obs(q)})
+        ctx.nontrivial.add(('qp', nrep, i))
+    return cases
+
+
 def run(ctx):
     rng = np.random.default_rng(ctx.seed)
     q = ctx.quick
@@ -186,4 +222,5 @@ def run(ctx):
     cases = reweight_cases(rng, 140 if q else 1500, ctx)
     cases += correlate_cases(rng, 60 if q else 500, ctx)
     cases += merge_cases(rng, 60 if q else 500, ctx)
+    cases += projection_cases(rng, 20 if q else 200, ctx)
     ctx.validate('OpsTrace', cases)
